@@ -74,6 +74,7 @@ type Explorer struct {
 	siteBit      map[string]int
 	siteInst     map[string]int
 	schedSeed    int64
+	schedEpoch   int
 	usedSched    map[string]bool
 
 	digestTerms []digestTerm
@@ -102,6 +103,7 @@ func (e *Explorer) startPath(prefix []int32) {
 	e.siteInst = map[string]int{}
 	e.usedSched = map[string]bool{}
 	e.schedSeed = 0
+	e.schedEpoch = 0
 	e.digestTerms = nil
 	e.pcSat = false
 	e.s.Reset()
@@ -301,7 +303,7 @@ func (e *Explorer) schedule(order []int, site string) []int {
 		return out
 	case schedSeeded:
 		h := fnv.New64a()
-		fmt.Fprintf(h, "%d/%d/%s/%d", e.seed, e.schedSeed, ss, e.siteInst[ss])
+		fmt.Fprintf(h, "%d/%d/%d/%s/%d", e.seed, e.schedSeed, e.schedEpoch, ss, e.siteInst[ss])
 		r := rand.New(rand.NewSource(int64(h.Sum64())))
 		r.Shuffle(n, func(i, j int) { order[i], order[j] = order[j], order[i] })
 		e.usedSched[ss+"=seeded"] = true
@@ -523,6 +525,10 @@ func (e *Explorer) intrinsic(it *Interp, name string, args []Value) Value {
 		return nil
 	case "vnScheduleSeed":
 		e.schedSeed = args[0].(int64)
+		return nil
+	case "vnScheduleEpoch":
+		e.siteBit = map[string]int{}
+		e.schedEpoch++
 		return nil
 	case "vnCut":
 		it.cuts[args[0].(string)] = true
